@@ -57,12 +57,23 @@
 //! backtrack; TensorStore::new costs ~1 ms, so a fresh engine per graph would not fit the time budget); the engine's
 //! current graph is always exactly the case graph, and every failure is re-evaluated on freshly built engines before it is
 //! recorded, so that `replay` (which builds the graph from scratch) reproduces it.
+//! Larger graphs (6..=24 nodes, both tiers; `family_components`): C18.components.partition compares `connected_components`
+//! (no config, and restricted to edge type A / B) -- the member sets as a set of sets, community_count and the per-node
+//! community id map -- and the member sets / count / per-node map of `strongly_connected_components` with a DFS partition
+//! resp. the mutual-reachability classes computed here on the edge list; C18.mst.forest compares `minimum_spanning_tree`
+//! and `minimum_spanning_forest` with the true components and with the weight of a minimum spanning forest computed by
+//! Prim's algorithm here (no union-find on the specification side).  Graphs: "merge order" forests (small trees of
+//! different union-find rank / size -- single node, pair, paths, stars, balanced pair-of-pairs, balanced 8 -- joined by one
+//! edge for EVERY choice of the two endpoints and both orientations of the joining edge; four small trees joined pairwise
+//! and the two results joined again the same way; edge weights w increasing / w2 decreasing / wn shuffled in creation order
+//! so that a Kruskal-style implementation meets the merges in creation order, in reverse and in a mixed order) plus seeded
+//! random multigraphs (self-loops, parallel edges, directed and undirected edges mixed, isolated nodes).
 //! Negative weights: only the unambiguous part of "negative weight => error" is asserted (C18.weighted.negative): an Ok
 //! answer never contains a negative edge, a NegativeWeight error names a real negative edge, and when every start->end
 //! walk needs a negative edge the call fails with NegativeWeight.
 use crate::fw::{Report, Rng, Tier};
 use graph_engine::{
-    AStarConfig, BiconnectedConfig, Direction, GraphEngine, GraphError, KCoreConfig, MstConfig, PropertyValue, SccConfig,
+    AStarConfig, BiconnectedConfig, CommunityConfig, Direction, GraphEngine, GraphError, KCoreConfig, MstConfig, PropertyValue, SccConfig,
     TraversalFilter, TriangleConfig, VariableLengthConfig,
 };
 use serde_json::{json, Value};
@@ -80,7 +91,7 @@ struct G { n: usize, es: Vec<E> }
 enum Dir { Out, In, Both }
 
 #[derive(Clone, Copy, PartialEq, Eq, Debug)]
-enum K { Path, Weighted, AllPaths, Var, Trav, Astar, Scc, Mst, Kcore, Tri, Bicon }
+enum K { Path, Weighted, AllPaths, Var, Trav, Astar, Scc, Mst, Kcore, Tri, Bicon, Comp, SccPart, MstForest }
 
 /// One query.  `s`/`t` = endpoints (index n = missing node), `min`/`max` hop bounds (`max` = depth for
 /// traverse), `ty` = edge-type restriction, `et` = edge property filter t == "A"/"B",
@@ -108,7 +119,8 @@ fn weight(e: &E, prop: u8) -> f64 {
 
 fn k_name(k: K) -> &'static str {
     match k { K::Path => "path", K::Weighted => "weighted", K::AllPaths => "all_paths", K::Var => "variable", K::Trav => "traverse",
-              K::Astar => "astar", K::Scc => "scc", K::Mst => "mst", K::Kcore => "kcore", K::Tri => "triangles", K::Bicon => "biconnected" }
+              K::Astar => "astar", K::Scc => "scc", K::Mst => "mst", K::Kcore => "kcore", K::Tri => "triangles", K::Bicon => "biconnected",
+              K::Comp => "components", K::SccPart => "scc_partition", K::MstForest => "mst_forest" }
 }
 fn dir_name(d: Dir) -> &'static str { match d { Dir::Out => "out", Dir::In => "in", Dir::Both => "both" } }
 
@@ -139,6 +151,7 @@ fn parse_case(c: &Value) -> Result<(G, Q), String> {
     let k = match q["k"].as_str().ok_or("q.k")? {
         "path" => K::Path, "weighted" => K::Weighted, "all_paths" => K::AllPaths, "variable" => K::Var, "traverse" => K::Trav,
         "astar" => K::Astar, "scc" => K::Scc, "mst" => K::Mst, "kcore" => K::Kcore, "triangles" => K::Tri, "biconnected" => K::Bicon,
+        "components" => K::Comp, "scc_partition" => K::SccPart, "mst_forest" => K::MstForest,
         o => return Err(format!("unknown query kind {o}")),
     };
     let us = |f: &str| q[f].as_u64().unwrap_or(0) as usize;
@@ -340,6 +353,56 @@ fn count_components(adj: &[u32], alive: u32, removed: Option<(usize, usize)>) ->
     c
 }
 
+/// connected components of the underlying undirected multigraph (edges of type `ty` only, if given): plain DFS on the
+/// edge list; every component sorted, components sorted
+fn spec_partition(g: &G, ty: Option<u8>) -> Vec<Vec<usize>> {
+    let mut nb: Vec<Vec<usize>> = vec![vec![]; g.n];
+    for e in &g.es { if ty.map_or(true, |t| e.ty == t) { nb[e.f].push(e.t); nb[e.t].push(e.f); } }
+    let mut seen = vec![false; g.n];
+    let mut out = vec![];
+    for s in 0..g.n {
+        if seen[s] { continue; }
+        seen[s] = true;
+        let (mut stack, mut c) = (vec![s], vec![]);
+        while let Some(u) = stack.pop() {
+            c.push(u);
+            for &v in &nb[u] { if !seen[v] { seen[v] = true; stack.push(v); } }
+        }
+        c.sort_unstable();
+        out.push(c);
+    }
+    out.sort();
+    out
+}
+
+/// weight of a minimum spanning forest of the underlying undirected multigraph: Prim's algorithm grown from the smallest
+/// node of every component (always the cheapest edge that leaves the tree built so far)
+fn spec_prim(g: &G, prop: u8) -> f64 {
+    let mut inside = vec![false; g.n];
+    let mut total = 0.0;
+    for s in 0..g.n {
+        if inside[s] { continue; }
+        inside[s] = true;
+        loop {
+            let mut best: Option<(f64, usize)> = None;
+            for e in &g.es {
+                if inside[e.f] == inside[e.t] { continue; }
+                let (w, out) = (weight(e, prop), if inside[e.f] { e.t } else { e.f });
+                if best.map_or(true, |b| w < b.0) { best = Some((w, out)); }
+            }
+            let Some((w, v)) = best else { break };
+            total += w;
+            inside[v] = true;
+        }
+    }
+    total
+}
+
+/// the partition of 0..n induced by the edges `sel` (indices into g.es), same normal form as `spec_partition`
+fn partition_of(g: &G, sel: &[usize]) -> Vec<Vec<usize>> {
+    spec_partition(&G { n: g.n, es: sel.iter().map(|k| g.es[*k].clone()).collect() }, None)
+}
+
 fn uf_find(p: &mut [usize], x: usize) -> usize { let mut r = x; while p[r] != r { r = p[r]; } p[x] = r; r }
 
 // ---------------------------------------------------------------- one query against the real code
@@ -535,7 +598,8 @@ fn eval(g: &G, b: &Built, q: &Q, sink: Sink) -> bool {
             sink("C18.algos.astar", verdict.is_ok(), &|| format!("astar_path[{} {}] = {:?}: {}", PROPS[q.prop as usize], dir_name(q.dir), r.as_ref().map(|x| &x.path), verdict.clone().err().unwrap_or_default()));
             q.s != q.t && !g.es.is_empty()
         },
-        K::Scc => {
+        K::Scc | K::SccPart => {
+            let ob: &'static str = if q.k == K::Scc { "C18.algos.scc" } else { "C18.components.partition" };
             let r = b.e.strongly_connected_components(&SccConfig::new().with_condensation());
             let reach: Vec<Vec<Option<usize>>> = (0..n).map(|s| spec_bfs(g, s, Dir::Out, &none, 0, None)).collect();
             let mut want: Vec<Vec<usize>> = vec![];
@@ -566,7 +630,7 @@ fn eval(g: &G, b: &Built, q: &Q, sink: Sink) -> bool {
                 })(),
                 Err(e) => Err(format!("unexpected error {e:?}")),
             };
-            sink("C18.algos.scc", verdict.is_ok(), &|| format!("strongly_connected_components: {}", verdict.clone().err().unwrap_or_default()));
+            sink(ob, verdict.is_ok(), &|| format!("strongly_connected_components: {}", verdict.clone().err().unwrap_or_default()));
             !g.es.is_empty()
         },
         K::Mst => {
@@ -710,6 +774,84 @@ fn eval(g: &G, b: &Built, q: &Q, sink: Sink) -> bool {
             };
             sink("C18.algos.biconnected", verdict.is_ok(), &|| format!("biconnected_components: {}", verdict.clone().err().unwrap_or_default()));
             !pairs.is_empty()
+        },
+        K::Comp => {
+            let r = b.e.connected_components(q.ty.map(|t| CommunityConfig::new().edge_type(TYPES[t as usize])));
+            let want = spec_partition(g, q.ty);
+            let verdict: Result<(), String> = match &r {
+                Ok(res) => (|| {
+                    let mut got = vec![];
+                    for m in res.members.values() { let mut c = b.nodes(m)?; c.sort_unstable(); got.push(c); }
+                    got.sort();
+                    if got != want { return Err(format!("members {got:?}, connected components by DFS on the edge list {want:?}")); }
+                    if res.community_count != want.len() { return Err(format!("community_count {} but {} components", res.community_count, want.len())); }
+                    if res.communities.len() != n { return Err(format!("communities maps {} nodes, the graph has {n}", res.communities.len())); }
+                    for v in 0..n {
+                        let Some(cid) = res.communities.get(&b.id(v)) else { return Err(format!("communities has no entry for node {v}")); };
+                        if !res.members.get(cid).is_some_and(|m| m.contains(&b.id(v))) { return Err(format!("communities[{v}] = {cid} but members[{cid}] does not list node {v}")); }
+                    }
+                    Ok(())
+                })(),
+                Err(e) => Err(format!("unexpected error {e:?}")),
+            };
+            sink("C18.components.partition", verdict.is_ok(), &|| format!("connected_components(edge_type {:?}): {}", q.ty.map(|t| TYPES[t as usize]), verdict.clone().err().unwrap_or_default()));
+            want.len() < n
+        },
+        K::MstForest => {
+            let parts = spec_partition(g, None);
+            let best = spec_prim(g, q.prop);
+            let wsum = |sel: &[usize]| sel.iter().map(|k| weight(&g.es[*k], q.prop)).sum::<f64>();
+            let acyclic = |sel: &[usize]| { let mut p: Vec<usize> = (0..n).collect(); sel.iter().all(|k| { let (a, c) = (uf_find(&mut p, g.es[*k].f), uf_find(&mut p, g.es[*k].t)); p[a] = c; a != c }) };
+            let describe = |res: &graph_engine::MstResult| -> Result<Vec<usize>, String> {
+                let ids: Vec<u64> = res.edges.iter().map(|e| e.edge_id).collect();
+                let sel = b.edges(&ids)?;
+                for (me, k) in res.edges.iter().zip(&sel) {
+                    let e = &g.es[*k];
+                    if b.nidx(me.from) != Some(e.f) || b.nidx(me.to) != Some(e.t) || me.weight != weight(e, q.prop) { return Err(format!("{me:?} does not describe edge #{k}")); }
+                }
+                let mut ds = sel.clone(); ds.sort_unstable(); ds.dedup();
+                if ds.len() != sel.len() || !acyclic(&sel) { return Err(format!("edges {sel:?} contain a cycle")); }
+                if res.total_weight != wsum(&sel) { return Err(format!("total_weight {} but its edges sum to {}", res.total_weight, wsum(&sel))); }
+                Ok(sel)
+            };
+            let r = b.e.minimum_spanning_tree(&MstConfig::new(PROPS[q.prop as usize]));
+            let verdict: Result<(), String> = match &r {
+                Ok(res) => (|| {
+                    let sel = describe(res)?;
+                    let pieces = partition_of(g, &sel);
+                    if pieces != parts { return Err(format!("the returned edges {sel:?} connect the node sets {pieces:?}, the connected components are {parts:?}")); }
+                    if sel.len() != n - parts.len() { return Err(format!("{} edges, a spanning forest of {n} nodes / {} components has {}", sel.len(), parts.len(), n - parts.len())); }
+                    if res.tree_count != parts.len() { return Err(format!("tree_count {} but {} connected components", res.tree_count, parts.len())); }
+                    if res.total_weight != best { return Err(format!("total_weight {} but a minimum spanning forest (Prim) weighs {best}", res.total_weight)); }
+                    let mut ns = b.nodes(&res.nodes)?; ns.sort_unstable();
+                    if ns != (0..n).collect::<Vec<_>>() { return Err(format!("nodes {ns:?} is not the node set")); }
+                    Ok(())
+                })(),
+                Err(e) => Err(format!("unexpected error {e:?}")),
+            };
+            sink("C18.mst.forest", verdict.is_ok(), &|| format!("minimum_spanning_tree[{}]: {}", PROPS[q.prop as usize], verdict.clone().err().unwrap_or_default()));
+            let rf = b.e.minimum_spanning_forest(PROPS[q.prop as usize]);
+            let verdict: Result<(), String> = match &rf {
+                Ok(trees) => (|| {
+                    let mut got = vec![];
+                    let mut total = 0.0;
+                    for t in trees {
+                        let sel = describe(t)?;
+                        let mut ns = b.nodes(&t.nodes)?; ns.sort_unstable();
+                        if t.tree_count != 1 { return Err(format!("a tree of the forest has tree_count {}", t.tree_count)); }
+                        if sel.len() + 1 != ns.len() || sel.iter().any(|k| !ns.contains(&g.es[*k].f) || !ns.contains(&g.es[*k].t)) { return Err(format!("edges {sel:?} are not a spanning tree of its node list {ns:?}")); }
+                        total += t.total_weight;
+                        got.push(ns);
+                    }
+                    got.sort();
+                    if got != parts { return Err(format!("node lists of the trees {got:?}, the connected components are {parts:?}")); }
+                    if total != best { return Err(format!("the trees weigh {total} in total but a minimum spanning forest (Prim) weighs {best}")); }
+                    Ok(())
+                })(),
+                Err(e) => Err(format!("unexpected error {e:?}")),
+            };
+            sink("C18.mst.forest", verdict.is_ok(), &|| format!("minimum_spanning_forest[{}]: {}", PROPS[q.prop as usize], verdict.clone().err().unwrap_or_default()));
+            parts.len() < n
         },
     }
 }
@@ -1045,7 +1187,107 @@ fn family_cycles(rep: &mut Report) {
     }
 }
 
-const OBLIGATIONS: [(&str, &str); 16] = [
+// ---------------------------------------------------------------- added family: components / spanning forests on 6..=24 nodes
+
+/// a small tree given by its edges in creation order (local node numbers)
+struct Part { size: usize, es: Vec<(usize, usize)> }
+
+fn parts_all() -> Vec<Part> {
+    let p = |size: usize, es: &[(usize, usize)]| Part { size, es: es.to_vec() };
+    vec![p(1, &[]), p(2, &[(0, 1)]), p(3, &[(0, 1), (1, 2)]), p(3, &[(1, 2), (0, 1)]), p(4, &[(0, 1), (1, 2), (2, 3)]),
+         p(4, &[(0, 1), (2, 3), (1, 3)]), p(4, &[(0, 1), (0, 2), (0, 3)]), p(4, &[(1, 0), (2, 0), (3, 0)]),
+         p(8, &[(0, 1), (2, 3), (4, 5), (6, 7), (1, 3), (5, 7), (3, 7)])]
+}
+
+/// graph under construction: edge #k gets type A,B,A,B by position, w = k/2 (increasing in creation order), w2 = 64 - k
+/// (decreasing), wn = (7k mod 11) - 3 (shuffled, with ties and negative values)
+struct GB { g: G }
+impl GB {
+    fn new() -> Self { Self { g: G { n: 0, es: vec![] } } }
+    fn edge(&mut self, f: usize, t: usize, d: bool) {
+        let k = self.g.es.len();
+        self.g.es.push(E { f, t, d, ty: POS_TY[k % 4], w: k as f64 * 0.5, w2: 64 - k as i64, wn: ((k * 7) % 11) as f64 - 3.0 });
+    }
+    /// adds the part (internal edges undirected / directed alternately) and returns its node offset
+    fn part(&mut self, p: &Part) -> usize {
+        let off = self.g.n;
+        self.g.n += p.size;
+        for (i, (f, t)) in p.es.iter().enumerate() { self.edge(off + f, off + t, i % 2 == 1); }
+        off
+    }
+    fn isolated(&mut self, k: usize) { self.g.n += k; }
+}
+
+fn component_queries(full: bool) -> Vec<Q> {
+    let mut qs = vec![Q { k: K::Comp, ..Q0 }, Q { k: K::Comp, ty: Some(0), ..Q0 }, Q { k: K::MstForest, prop: 0, ..Q0 }, Q { k: K::MstForest, prop: 1, ..Q0 }];
+    if full { qs.extend([Q { k: K::Comp, ty: Some(1), ..Q0 }, Q { k: K::SccPart, ..Q0 }, Q { k: K::MstForest, prop: 2, ..Q0 }, Q { k: K::MstForest, prop: 3, ..Q0 }]); }
+    qs
+}
+
+/// C18.components.partition / C18.mst.forest on graphs of 6..=24 nodes (see the module doc).  Returns the number of graphs per family.
+fn family_components(rep: &mut Report, seed: u64, randoms: usize) -> (usize, usize, usize) {
+    let parts = parts_all();
+    let run = |rep: &mut Report, g: &G, full: bool| {
+        let b = build(g);
+        for q in &component_queries(full) { run_query(rep, g, &b, q, false); }
+    };
+    // (1) two trees joined by one edge: every ordered pair of parts, every endpoint in each, both orientations of the joining
+    //     edge (created last); a separate pair and isolated nodes (>= 1, up to 6 nodes in total) make the partition non-trivial
+    let mut n1 = 0;
+    for a in &parts { for c in &parts { for x in 0..a.size { for y in 0..c.size { for flip in [false, true] {
+        let mut gb = GB::new();
+        let (oa, oc) = (gb.part(a), gb.part(c));
+        gb.part(&parts[1]);
+        let used = gb.g.n;
+        gb.isolated(if used >= 5 { 1 } else { 6 - used });
+        let (f, t) = if flip { (oc + y, oa + x) } else { (oa + x, oc + y) };
+        gb.edge(f, t, (x + y) % 2 == 0);
+        run(rep, &gb.g, true);
+        n1 += 1;
+    } } } } }
+    // (2) four trees (pair, path, star) joined pairwise (last node to last node), the two results joined again: every endpoint
+    //     on each side, both orientations; one isolated node.  (d, e | a, c) repeats the shapes of (a, c | d, e) with the two sides
+    //     exchanged (the outer edge is tried in both orientations anyway): only (a, c) <= (d, e) is built
+    let small = [&parts[1], &parts[2], &parts[7]];
+    let mut n2 = 0;
+    for (ia, a) in small.into_iter().enumerate() { for (ic, c) in small.into_iter().enumerate() { for (id, d) in small.into_iter().enumerate() { for (ie, e) in small.into_iter().enumerate() {
+        if (ia, ic) > (id, ie) { continue; }
+        let left = a.size + c.size;
+        for x in 0..left { for y in 0..d.size + e.size { for flip in [false, true] {
+            let mut gb = GB::new();
+            let (oa, oc, od, oe) = (gb.part(a), gb.part(c), gb.part(d), gb.part(e));
+            gb.isolated(1);
+            gb.edge(oa + a.size - 1, oc + c.size - 1, false);
+            gb.edge(oe + e.size - 1, od + d.size - 1, true);
+            let (f, t) = if flip { (left + y, x) } else { (x, left + y) };
+            gb.edge(f, t, (x + y) % 2 == 1);
+            run(rep, &gb.g, false);
+            n2 += 1;
+        } } }
+    } } } }
+    // (3) seeded random multigraphs: 6..=24 nodes, endpoints drawn from a random subset of the nodes (the others stay isolated),
+    //     self-loops, parallel edges, directed and undirected edges mixed
+    let mut rng = Rng(seed ^ 0xC18_C0);
+    for _ in 0..randoms {
+        let n = 6 + rng.below(19) as usize;
+        let live = 2 + rng.below(n as u64 - 1) as usize;
+        let m = rng.below(live as u64 * 3 / 2 + 2) as usize;
+        let mut g = random_graph(&mut rng, live, m);
+        g.n = n;
+        // spread the live nodes over 0..n
+        let stride = [1usize, 5, 7, 11, 13][rng.below(5) as usize];
+        let stride = if gcd(stride, n) == 1 { stride } else { 1 };
+        for e in &mut g.es { e.f = e.f * stride % n; e.t = e.t * stride % n; }
+        run(rep, &g, true);
+    }
+    (n1, n2, randoms)
+}
+
+fn gcd(a: usize, b: usize) -> usize { if b == 0 { a } else { gcd(b, a % b) } }
+
+const OBLIGATIONS: [(&str, &str); 18] = [
+    ("C18.components.partition", "GraphEngine::connected_components, strongly_connected_components (graphs of 6..=24 nodes)"),
+    ("C18.mst.forest", "GraphEngine::minimum_spanning_tree, minimum_spanning_forest (graphs of 6..=24 nodes)"),
     ("C18.varpaths.cycles", "GraphEngine::find_variable_paths with VariableLengthConfig::allow_cycles(true)"),
     ("C18.varpaths.cycles.unique", "GraphEngine::find_variable_paths with VariableLengthConfig::allow_cycles(true)"),
     ("C18.path.valid", "GraphEngine::find_path"), ("C18.path.optimal", "GraphEngine::find_path"),
@@ -1079,7 +1321,7 @@ pub fn run(tier: Tier, seed: u64) -> Report {
     };
     let mut rep = Report::new("c18_paths", &domain, true,
         &["graph_engine::GraphEngine::find_path", "find_weighted_path", "find_all_paths", "find_variable_paths", "traverse", "strongly_connected_components",
-          "minimum_spanning_tree", "kcore_decomposition", "count_triangles", "biconnected_components", "astar_path"]);
+          "minimum_spanning_tree", "kcore_decomposition", "count_triangles", "biconnected_components", "astar_path", "connected_components", "minimum_spanning_forest"]);
     for (o, f) in OBLIGATIONS { rep.declare(o, f); }
     // no files are created by this set (in-memory engines only), so there is no tmpdir to remove
     let full_upto = if thorough { 3 } else { 2 };
@@ -1104,6 +1346,11 @@ pub fn run(tier: Tier, seed: u64) -> Report {
     }
     family_filtered(&mut rep);
     family_cycles(&mut rep);
+    let (n1, n2, n3) = family_components(&mut rep, seed, if thorough { 3000 } else { 300 });
+    rep.domain.push_str(&format!(". Components / spanning forests on 6..=24 nodes (connected_components with and without edge type, SCC partition, minimum_spanning_tree / \
+        minimum_spanning_forest on w, w2, wn and a missing property): {n1} forests of two trees (9 shapes: single, pair, 2 paths of 3, path of 4, balanced pair of pairs, 2 stars, balanced 8) \
+        joined through every endpoint pair in both orientations; {n2} forests of four trees (pair, path, star) joined pairwise and again through every endpoint pair in both orientations; \
+        {n3} seeded random multigraphs with self-loops, parallel edges, mixed directed/undirected edges and isolated nodes (not exhaustive)"));
     let sample = G { n: 3, es: vec![E { f: 0, t: 1, d: true, ty: 0, w: 0.0, w2: 1, wn: -1.0 }, E { f: 2, t: 1, d: false, ty: 1, w: 1.0, w2: 1, wn: 1.0 }] };
     rep.sample(case_json(&sample, &Q { k: K::Path, s: 1, t: 0, ..Q0 }));
     rep.sample(case_json(&sample, &Q { k: K::Var, s: 0, t: 2, min: 1, max: 3, dir: Dir::Both, ..Q0 }));
@@ -1113,7 +1360,8 @@ pub fn run(tier: Tier, seed: u64) -> Report {
 
 pub fn replay(ob: &str, case: &Value) -> Result<String, String> {
     let (g, q) = parse_case(case)?;
-    if g.n == 0 || g.n > 8 && q.excl != 0 || g.n > 16 || g.es.len() > 16 { return Err("case outside the supported size (1..=16 nodes, <= 16 edges, node filter only up to 8 nodes)".into()); }
+    let big = matches!(q.k, K::Comp | K::SccPart | K::MstForest) && g.n <= 32 && g.es.len() <= 64;
+    if g.n == 0 || g.n > 8 && q.excl != 0 || !big && (g.n > 16 || g.es.len() > 16) { return Err("case outside the supported size (1..=16 nodes, <= 16 edges, node filter only up to 8 nodes; components / scc_partition / mst_forest: <= 32 nodes, <= 64 edges)".into()); }
     // several fresh engines: see FRESH_TRIES
     let mut seen = 0;
     let mut fail: Option<String> = None;
